@@ -12,6 +12,7 @@ import (
 
 	ad "github.com/pbenner/autodiff"
 	"github.com/pbenner/autodiff/algorithm/eigensystem"
+	"github.com/pbenner/autodiff/algorithm/householderBidiagonalization"
 	"github.com/pbenner/autodiff/algorithm/msqrt"
 	"github.com/pbenner/autodiff/algorithm/msqrtInv"
 	"github.com/pbenner/autodiff/algorithm/qrAlgorithm"
@@ -28,6 +29,8 @@ type IterIn struct {
 	Family string `json:"family,omitempty"`
 	// RealSpectrum: the generator guarantees that all eigenvalues are real
 	RealSpectrum bool `json:"real_spectrum,omitempty"`
+	// Diag: diagnostics the harness attaches to a call that did not return (never an input)
+	Diag map[string]bool `json:"diag,omitempty"`
 }
 
 type IterOut struct {
@@ -118,8 +121,32 @@ func RunIter(in *IterIn) *IterOut {
 		return o
 	case <-time.After(iterDeadline):
 		hung++
+		diagnoseTimeout(in)
 		return &IterOut{Timeout: true}
 	}
+}
+
+// diagnoseTimeout: for an svd call that did not return, run the library's own
+// bidiagonalisation on the input and record whether the bidiagonal form has an
+// exactly zero diagonal entry at the end of an unreduced block
+// (B[k,k] == 0 and B[k-1,k] != 0): the input class of F-SVD-ZERODIAG-HANG.
+func diagnoseTimeout(in *IterIn) {
+	if in.Kind != "svd" || in.M == nil || in.M.R < in.M.C {
+		return
+	}
+	defer func() { recover() }()
+	B, _, _, err := householderBidiagonalization.Run(MkMat(in.Path, in.M))
+	if err != nil {
+		return
+	}
+	b := ReadMat(B)
+	z := false
+	for k := 1; k < in.M.C; k++ {
+		if b.At(k, k) == 0 && b.At(k-1, k) != 0 {
+			z = true
+		}
+	}
+	in.Diag = map[string]bool{"zero_diag_block_end": z}
 }
 
 var _ ad.Matrix
